@@ -32,6 +32,7 @@ L1 = b'</a>;rt="x"'
 L2 = b'</b>;if="y",</c>'
 L3 = b'</q>;title="say \\"hi\\"",</r>'       # a quoted-string with escaped quotes
 LINKS = {"L1": (L1, ["/a"]), "L2": (L2, ["/b", "/c"]), "L3": (L3, ["/q", "/r"])}
+LINK_ATTRS = {"/a": {"rt": "x"}, "/b": {"if": "y"}, "/c": {}, "/q": {"title": 'say "hi"'}, "/r": {}}
 RDP = ["resourcedirectory", ""]
 EPL = ["endpoint-lookup", ""]
 RSL = ["resource-lookup", ""]
@@ -57,6 +58,9 @@ class St:
     pass
 
 
+EXTENDED_ALWAYS = [False]
+
+
 def build(hist):
     st = St()
     holder = {}
@@ -71,8 +75,11 @@ def build(hist):
     st.locs = []         # locations in order of first appearance
     st.violations = []
     st.last = []
-    for op in hist:
+    for i, op in enumerate(hist):
         n = len(st.violations)
+        # the lookups are compared in full after the last step only: every proper prefix is a state of its own and was judged there
+        st.final = i == len(hist) - 1
+        st.extended = EXTENDED_ALWAYS[0] or len(hist) <= 3     # attribute filters and pagination: on short histories in the quick tier
         apply(st, op)
         st.last = st.violations[n:]
     return st
@@ -112,7 +119,7 @@ def apply(st, op):
     for k in [k for k, m in st.model.items() if now >= m["written"] + m["lt"] + GRACE]:
         del st.model[k]
     before = impl_canon(st)
-    before_lookups = lookups(st)
+    before_lookups = lookups(st) if st.final else None
     expect_error = False
     r = None
     if op[0] == "t":
@@ -230,14 +237,15 @@ def apply(st, op):
         if not (128 <= code < 160):
             viol(st, "invalid-request-accepted", "4.xx", repr(r), "cli/rd.py", "%s:%s" % (op[0], op[-1]))
         after = impl_canon(st)
-        if after != before or lookups(st) != before_lookups:
+        if after != before or (st.final and lookups(st) != before_lookups):
             what = "tables" if after[:2] != before[:2] else "timers" if after[2] != before[2] else "lookups"
             viol(st, "rejected-request-changed-directory", "directory unchanged by a request answered 4.xx",
                  {"changed": what, "before": core.jsonable(before)[:2], "after": core.jsonable(after)[:2]},
                  "cli/rd.py", "%s:%s/%s" % (op[0], op[-1], what))
             st.diverged = True
             return      # the model no longer describes the directory; later lookups would only repeat this finding
-    check_lookups(st)
+    if st.final:
+        check_lookups(st)
     for msg, e in sw.loop_exceptions():
         viol(st, "loop-exception", "none", core.exc_desc(e) if e else msg, core.site_of(e) if e else "loop", type(e).__name__ if e else msg[:40])
     sw.loop.exc.clear()
@@ -294,6 +302,55 @@ def check_lookups(st):
     if set(id(x) for x in rd._by_key.values()) != set(id(x) for x in rd._by_path.values()):
         viol(st, "tables-disagree", "by_key and by_path describe the same registrations", [list(rd._by_key), list(rd._by_path)],
              "cli/rd.py:CommonRD", "tables")
+    if not getattr(st, "extended", True):
+        return
+    # resource lookups filtered by link attributes and by registration parameters; endpoint lookups filtered by link attributes
+    def links_of(k, m):
+        return [(m["base"] + h, LINK_ATTRS[h]) for h in LINKS[m["links"]][1]]
+    for flt, pred in (("rt=x", lambda k, m, a: a.get("rt") == "x"), ("if=y", lambda k, m, a: a.get("if") == "y"),
+                      ("ep=e1", lambda k, m, a: k[0] == "e1"), ("d=d1", lambda k, m, a: k[1] == "d1"),
+                      (("rt=x", "ep=e2"), lambda k, m, a: a.get("rt") == "x" and k[0] == "e2"),
+                      (("ep=e1", "rt=x"), lambda k, m, a: a.get("rt") == "x" and k[0] == "e1"),
+                      ("rt=nope", lambda k, m, a: False)):
+        q = [flt] if isinstance(flt, str) else list(flt)
+        r = request(st, GET, RSL, q)
+        try:
+            g = sorted(h for h, at in parse_linkformat(r.payload.decode("utf8")))
+        except Exception:
+            g = ["unparsable"]
+        w = sorted(h for k, m in lv.items() for h, a in links_of(k, m) if pred(k, m, a))
+        if g != w:
+            viol(st, "resource-lookup-filter", w, g, "cli/rd.py:ResourceLookupInterface", "&".join(q))
+    for flt, pred in (("rt=x", lambda k, m: any(a.get("rt") == "x" for h, a in links_of(k, m))),
+                      ("if=y", lambda k, m: any(a.get("if") == "y" for h, a in links_of(k, m)))):
+        r = request(st, GET, EPL, [flt])
+        try:
+            g = sorted(h for h, at in parse_linkformat(r.payload.decode("utf8")))
+        except Exception:
+            g = ["unparsable"]
+        w = sorted("/" + "/".join(m["loc"]) for k, m in lv.items() if pred(k, m))
+        if g != w:
+            viol(st, "endpoint-lookup-filter", w, g, "cli/rd.py:EndpointLookupInterface", "link-attr:" + flt)
+    # pagination: the pages of size 1 (and of size 2) are the full listing cut into pieces; a page behind the end is empty
+    for path, full, name in ((EPL, [h for h, at in eps], "endpoint"), (RSL, [h for h, at in ress], "resource")):
+        for count in (1, 2):
+            pages = []
+            for page in range(0, (len(full) + count - 1) // count + 1):
+                r = request(st, GET, path, ["page=%d" % page, "count=%d" % count])
+                try:
+                    pages.append([h for h, at in parse_linkformat(r.payload.decode("utf8"))])
+                except Exception:
+                    pages.append(["unparsable"])
+            flat = [h for pg in pages for h in pg]
+            if flat != full or any(len(pg) > count for pg in pages) or pages[-1] != []:
+                viol(st, "lookup-pagination", {"full": full}, {"count": count, "pages": pages}, "cli/rd.py:_paginate", name + "-pages")
+        r = request(st, GET, path, ["count=1"])
+        try:
+            first = [h for h, at in parse_linkformat(r.payload.decode("utf8"))]
+        except Exception:
+            first = ["unparsable"]
+        if first != full[:1]:
+            viol(st, "lookup-pagination", full[:1], first, "cli/rd.py:_paginate", name + "-count-only")
 
 
 def canon(st):
@@ -339,6 +396,7 @@ def job(arg):
 
 
 def run(tier, seed, jobs):
+    EXTENDED_ALWAYS[0] = tier == "thorough"
     depth = 3 if tier == "quick" else 5
     firsts = [op for op in OPS if op[0] in ("reg", "badreg")]
     work = [(op, depth) for op in firsts]
